@@ -84,6 +84,32 @@ def check_tree(tree, rec, nt=True):
     chk("tree.first_child(ANY_KIND)", call(tree.first_child, ANY_KIND), lambda v: v is (top[0] if top else None), [nm(top)])
     chk("tree.last_child(ANY_KIND)", call(tree.last_child, ANY_KIND), lambda v: v is (top[-1] if top else None), [nm(top)])
     chk("tree.iter_by_type(ANY_KIND)", call(lambda: list(tree.iter_by_type(ANY_KIND))), lambda v: same_list(v, pre), [len(pre)])
+    # several by-kind iterators of one tree alive at once (consumed in lock step, the older one finished last)
+    import itertools
+
+    for k1, k2 in zip(QUERY_KINDS, QUERY_KINDS[1:] + QUERY_KINDS[:1]):
+        def both(k1=k1, k2=k2):
+            i1 = tree.iter_by_type(k1)
+            i2 = tree.iter_by_type(k2)
+            a, b = [], []
+            for x, y in itertools.zip_longest(i1, i2):
+                if x is not None:
+                    a.append(x)
+                if y is not None:
+                    b.append(y)
+            return a, b
+
+        e1, e2 = [n for n in pre if n.kind == k1], [n for n in pre if n.kind == k2]
+        chk("tree.iter_by_type:two-iterators-in-lock-step", call(both), lambda v: same_list(v[0], e1) and same_list(v[1], e2), [k1, k2])
+    # the system root is a node like any other for the child queries (also of a tree that never had a node)
+    root = tree.system_root
+    for k in QUERY_KINDS:
+        exp = [c for c in top if c.kind == k]
+        chk("system_root.has_children(kind)", call(root.has_children, k), lambda v: v is bool(exp), [k, nm(top)])
+        chk("system_root.get_children(kind)", call(root.get_children, k), lambda v: same_list(v, exp), [k, nm(top)])
+        chk("system_root.first_child(kind)", call(root.first_child, k), lambda v: v is (exp[0] if exp else None), [k, nm(top)])
+    chk("system_root.has_children(ANY_KIND)", call(root.has_children, ANY_KIND), lambda v: v is bool(top), [nm(top)])
+    chk("system_root.get_children(ANY_KIND)", call(root.get_children, ANY_KIND), lambda v: same_list(v, top), [nm(top)])
 
     for n in pre:
         ks = w.kids[id(n)]
